@@ -89,6 +89,13 @@ def bounds_spec(n, sizes, kind, table):
         lo_v = 0.1 + 0.3 * gen(table, 3, n)
         hi_v = lo_v + 0.5 + 1.5 * gen(table, 4, n)
         return lo_v.copy(), hi_v.copy(), lo_v.copy(), hi_v.copy()
+    if kind == 'wide':
+        # per-variable bounds whose ranges differ by four orders of magnitude (a size variable next to densities)
+        lo_v = 0.1 + 0.3 * gen(table, 3, n)
+        rng = 0.5 + 1.5 * gen(table, 4, n)
+        rng[0] *= 1e4
+        hi_v = lo_v + rng
+        return lo_v.copy(), hi_v.copy(), lo_v.copy(), hi_v.copy()
     raise KeyError(kind)
 
 
